@@ -172,6 +172,10 @@ def batchVerify {G : Type} [DecidableEq G] (cod : Grp G) (g : G) (xs : List G) (
 def batchRespond (q : Nat) (ws : List Nat) (s e : Nat) : Nat :=
   (s :: ws).foldr (fun c acc => (c + acc * e) % q) 0
 
+/-- the verifier of the protocol configured for `k` statements (`len(statement.Xs) != p.k` ⇒ reject) -/
+def batchVerifyK {G : Type} [DecidableEq G] (k : Nat) (cod : Grp G) (g : G) (xs : List G) (a : G) (e z : Nat) : Bool :=
+  xs.length == k && batchVerify cod g xs a e z
+
 /-! ## AND / OR composition -/
 
 /-- AND: the same challenge for every branch -/
@@ -186,6 +190,17 @@ def orVerify {X A Z : Type} (verify : X → A → Nat → Z → Bool) (xs : List
     (es : List Nat) (zs : List Z) : Bool :=
   xs.length == as.length && xs.length == zs.length && xs.length == es.length && xorAll es == e &&
     (List.zip xs (List.zip as (List.zip es zs))).all fun t => verify t.1 t.2.1 t.2.2.1 t.2.2.2
+
+/-- AND configured for `n` branches (`sigand.Compose(p, n)`): statement, commitment and response must
+each have exactly `n` components -/
+def andVerifyN {X A Z : Type} (n : Nat) (verify : X → A → Nat → Z → Bool) (xs : List X) (as : List A) (e : Nat)
+    (zs : List Z) : Bool :=
+  xs.length == n && andVerify verify xs as e zs
+
+/-- OR configured for `n` branches (`sigor.Compose(p, n)`) -/
+def orVerifyN {X A Z : Type} (n : Nat) (verify : X → A → Nat → Z → Bool) (xs : List X) (as : List A) (e : Nat)
+    (es : List Nat) (zs : List Z) : Bool :=
+  xs.length == n && orVerify verify xs as e es zs
 
 /-! ## Compilers -/
 
@@ -213,6 +228,21 @@ def fischlinVerify {Hst X A E Z C : Type} (ρ : Nat) (common : Hst → X → Lis
   π.length == ρ &&
     ((withIdx π).all fun t => target (common h x (π.map (·.1))) t.1 t.2.2.1 t.2.2.2) &&
     (π.all fun t => verify x t.1 t.2.1 t.2.2)
+
+/-- `⌈log₂ n⌉` (0 for `n ≤ 1`) -/
+def ceilLog2 (n : Nat) : Nat := if n ≤ 1 then 0 else (n - 1).log2 + 1
+
+/-- the parameters `(ρ, b, t)` the Fischlin compiler is specified to use for a protocol with special
+soundness `ss` (`ρ = 32` for the Paillier n-th-root proof, `16` otherwise):
+`b = ⌈128/ρ⌉ + ⌈log₂(ss − 1)⌉`, `t = b + 5` (`b + 6` when `ρ > 64`) -/
+def fischlinSpec (nthroot : Bool) (ss : Nat) : Nat × Nat × Nat :=
+  let ρ := if nthroot then 32 else 16
+  let b := (128 + ρ - 1) / ρ + ceilLog2 (ss - 1)
+  (ρ, b, if ρ > 64 then b + 6 else b + 5)
+
+/-- the parameters of randomised Fischlin: `R = λ / L` repetitions of an `L`-bit hash target,
+challenges of `T = ⌈log₂ λ⌉ · L` bits -/
+def randFischlinSpec (lam l : Nat) : Nat × Nat := (lam / l, ceilLog2 lam * l)
 
 /-- interactive ZK compiler, prover round 4: respond only if the verifier's opening of its
 challenge commitment is valid under the transcript-derived key -/
